@@ -25,6 +25,9 @@ var c09Patterns = []string{
 	`(Or (CallExpr f [a]) (CallExpr f [a b]) other)`,
 	`(SliceExpr _ x x _)`,
 	`(SliceExpr s lo (Or lo hi@(Ident _)) _)`,
+	`(BinaryExpr x "+" (CallExpr _ x))`,
+	`(BinaryExpr (CallExpr _ x) _ x)`,
+	`(CallExpr f x:x:[])`,
 }
 
 // c09Many builds a pattern with n leading names so that the interesting
@@ -219,7 +222,7 @@ func c09Prepare(c *Ctx) (map[string]string, []Entry, error) {
 		fmt.Fprintf(&sb, "// %s\nfunc c09PatExplicit%d() Pattern {\n\treturn %s\n}\n\n", es, i, renderPattern(q))
 		fmt.Fprintf(&sb, "func Harness_C09_match_p%d() {\n\tc09Check(%q, c09Pat%d(), c09Tree(vchoose(c09NTrees)))\n\tvreach(\"end\")\n}\n\n", i, fmt.Sprintf("pattern %d", i), i)
 		fmt.Fprintf(&sb, "func Harness_C09_spelling_p%d() {\n\tc09Same(%q, c09Pat%d(), c09PatExplicit%d(), c09Tree(vchoose(c09NTrees)))\n\tvreach(\"end\")\n}\n\n", i, fmt.Sprintf("pattern %d", i), i, i)
-		b := "pattern: " + short + " ; 16 syntax-tree shapes (binary/unary/call/paren over identifiers and INT literals) with symbolic identifier names {a,b}, literal values {1,2} and operators {+,*}"
+		b := "pattern: " + short + " ; 19 syntax-tree shapes (binary/unary/call/paren over identifiers and INT literals) with symbolic identifier names {a,b}, literal values {1,2} and operators {+,*}"
 		entries = append(entries,
 			Entry{Fn: fmt.Sprintf("Harness_C09_match_p%d", i), Tiers: "both", Reach: []string{"end"}, Bounds: b},
 			Entry{Fn: fmt.Sprintf("Harness_C09_spelling_p%d", i), Tiers: "both", Reach: []string{"end"}, Bounds: b})
@@ -234,7 +237,7 @@ func init() {
 			Level: "model_checking",
 			Assumptions: []string{
 				"patterns: 14 (thorough 17) patterns nesting Or, Not, List and Binding, with repeated names and up to 64 names, in both spellings; parsed by the real parser natively on every run and rebuilt as Go values including the unexported binding index",
-				"syntax trees: 16 expression shapes (incl. slice expressions with absent bounds) with symbolic leaves; nodes that need type information (Symbol, Object, Builtin, IntegerLiteral) are outside the claim",
+				"syntax trees: 19 expression shapes (incl. slice expressions with absent bounds) with symbolic leaves; nodes that need type information (Symbol, Object, Builtin, IntegerLiteral) are outside the claim",
 				"package reflect is modelled by the engine (reading operations only)",
 			},
 		}
